@@ -303,6 +303,20 @@ def wl_cuckoo(ctx, rng, case):
                       got=(r.fingerprint_size_bits, r.bucket_size, r.capacity), want=(bits, b, c.capacity))
             ctx.count("cuckoo.configs_checked")
             ctx.observe("cuckoo.bits_seen", bits, cap=64)
+            # a REFUSED change of the fingerprint width (documented range 1..4 bytes) must leave the derived geometry as it was
+            for bad in rng.sample([0, 5, -1, 0.5, 4.5, 100, -8], 2):
+                try:
+                    c.fingerprint_size = bad
+                    refused = False
+                except ValueError:
+                    refused = True
+                if not refused:
+                    break  # accepted: a different contract, not judged here
+                ctx.check(c.fingerprint_size_bits == bits and c.error_rate == err, f"a refused fingerprint_size = {bad!r} changed the derived geometry {where}",
+                          bits_before=bits, bits_after=c.fingerprint_size_bits, error_rate=c.error_rate)
+                r = cls.frombytes(bytes(c), error_rate=err)
+                ctx.check(r.fingerprint_size_bits == c.fingerprint_size_bits, f"after a refused fingerprint_size = {bad!r} the reloaded filter has another geometry {where}")
+                ctx.count("cuckoo.refused_width_changes")
     for fs in (1, 2, 3, 4):
         for b in (1, 2, 4, 8):
             c = P.CuckooFilter(capacity=4, bucket_size=b, max_swaps=3, finger_size=fs)
